@@ -123,6 +123,24 @@ CHECKS = {
         'Tie: the complete real compiler.compile (down to _make_query_unit and QueryUnitGroup.append) on generated statements x nesting contexts x DML kinds x function/alias/global holders over a schema built through real migrations; per-unit capabilities, len(dml_exprs), group capabilities, reject class and stored volatilities compared with the extracted model; '
         'monitors independent of the model: an INSERT/UPDATE/DELETE on a user table in the emitted SQL text or pgast tree requires MODIFICATIONS; DML in the parsed statement (through function bodies) requires MODIFICATIONS; kind capabilities; group = union.',
    note='Trusted: Coq kernel; extraction; translator; harness; vrt substrate (real parser substitute, std schema). Not modelled: types, cardinality, scoping, SQL generation (writes are read off the emitted SQL / AST; nothing is executed). Documented model deviations (function DDL / DESCRIBE / CONFIGURE inside migration blocks not compared). No axioms.'),
+ 'C03': dict(
+   category='proof', design_ref='DESIGN.md section 4, C02/C10/C03/C11 (+ section 9 change log)',
+   technique='Coq proofs about an abstract describe/replay model and a model of module-alias name resolution (apply_module_aliases, tracer.resolve_name, _classname_from_ast); differential correspondence vs the real resolution functions; describe -> replay differential monitors on the real code under several session alias maps',
+   text='PARTIAL. Proved: for every well-formed abstract schema the printed DDL replayed on a base-only database rebuilds the same schema, identically in all sessions whose aliases leave the schema\'s module names alone; fully-qualified names resolve to themselves; lookups and created names are session-independent under that side condition (refutation witnesses show the side condition is necessary = known finding C03-alias-shadows-module); the SDL route inherits the C11 theorems. '
+        'Name-resolution model tied by exact correspondence to the real functions. End-to-end (monitors, not proofs): DESCRIBE SCHEMA AS DDL / AS SDL of generated schemas (shared feature grammar) replayed on a std-only schema under 4-5 harmless and one colliding session alias map; equivalence = repo delta_schemas empty AND independent structural dump equal.',
+   note='Trusted: Coq kernel; extraction; harness; vrt substrate. NOT modelled: the printer (per-class _get_ast, codegen, expression normalisation), reference tracing, linearize_delta — mutations there are caught by the monitors, not by a broken proof. No axioms.'),
+ 'C11': dict(
+   category='proof', design_ref='DESIGN.md section 4, C02/C10/C03/C11 (+ section 9 change log)',
+   technique='Coq proofs of order-independence of SDL processing composed from the C20 sort theorems plus a commutation lemma, over a model of sdl_to_ddl/apply_sdl top level; differential correspondence vs real dependency graphs and apply_sdl; permutation monitors on the real code',
+   text='PARTIAL. 9 theorems for documents of any size over an arbitrary base schema: any permutation of declarations, module blocks and body members gives the same outcome class and the same declarations (C11_order_irrelevant, C11_nested_order_irrelevant); a cycle error iff the strong/loop-control reference relation is cyclic (C11_cycle_iff); the outcome is exactly one of duplicate/unresolved/cycle/ok; listing order and multiplicity of traced references are irrelevant; composed from C20_perm, C20_hard, C20_cycle_sound/complete, C20_unresolved_*, C20_fuel_enough. '
+        'Tie: real dependency graphs produced by declarative.py/tracer.py vs the model, abstract documents vs real apply_sdl. Monitors on the real code: generated SDL documents in all permutations (<= 3 declarations quick, <= 5 thorough; sampled above), equal schemas required (repo diff + structural dump), cycle errors checked against an independent reference graph, PYTHONHASHSEED probe; three order-dependence defects are known findings.',
+   note='Trusted: Coq kernel; extraction; harness (text-level SDL permuter, dump comparison); vrt substrate. NOT modelled: how the tracer finds references (monitors + the exploration-level pairwise commutation probe). No axioms.'),
+ 'C07': dict(
+   category='translation_validation', design_ref='DESIGN.md section 4, C07 (+ section 9 change log)',
+   technique='Coq-verified validator (noninterference theorem for the `guarded` checker, completeness w.r.t. scan leaks, exact condition check, registration model theorems) run on an abstraction of every SQL tree the real compiler emits for generated queries x policy placements',
+   text='Translation validation with a machine-checked validator. Proved: if guarded t = true then any two databases with equal policy views give equal results, for every interpretation of the non-scan operators and every policy meaning (C07_noninterference); a rejected tree is genuinely distinguishable (C07_guarded_complete); the WHERE-formula check against (OR allow) AND NOT (OR deny) is exact; theorems about a model of new_set / try_type_rewrite / should_ignore_rewrite registration (with refutation witnesses for the cached-in-policy and children-overlap defects). '
+        'Tie: the real compiler (compile_ast_to_ir with apply_query_rewrites, compile_ir_to_sql_tree) runs on generated read-only queries (direct, link, backlink, shape, [is], aggregates, subqueries, aliases, computeds, globals; nesting <= 3) x policy placements (type/ancestor/descendant/link target, allow/deny select/all); its pgast is abstracted by following the real SQL code generator and fed to the EXTRACTED validator; the real registration path is compared with the extracted registration model; an independent region monitor runs on the real pgast. Two genuine bypasses are known findings, one was repaired (fix 4fd4967).',
+   note='Trusted: Coq kernel; extraction; the pgast -> tree abstraction (row-preserving projections, Guard recognition, policy-clause marker constants, two-valued clauses); vrt substrate; policy specs computed by the generator. Out of scope: link tables, DML/triggers, SQL function bodies, compound types in the registration model, EdgeQL->SQL compilation of each clause. No axioms.'),
 }
 
 NA_DEFAULT = 'check not built yet (round 1 in progress); see DESIGN.md section 6'
